@@ -340,7 +340,7 @@ impl<'db> Usages<'db> {
             Expr::FunctionCall(ExprFunctionCall {
                 args,
                 function: _,
-                coupon_arg: _,
+                coupon_arg,
                 stable_ptr: _,
                 ty: _,
             }) => {
@@ -355,6 +355,9 @@ impl<'db> Usages<'db> {
                             self.handle_expr(arenas, *expr, current)
                         }
                     }
+                }
+                if let Some(coupon_arg) = coupon_arg {
+                    self.handle_expr(arenas, *coupon_arg, current);
                 }
             }
             Expr::Match(expr) => {
